@@ -572,6 +572,10 @@ func runC07(inputs []json.RawMessage, tr *tracer) summary {
 				if nsteps > 60000 {
 					die("program %d: a schedule exceeded 60000 steps", p.ID)
 				}
+				// a step that only failed to take a lock, or found its operation not ready yet, changed nothing
+				if st.To == "wait" || strings.HasSuffix(st.To, ":lock") {
+					return
+				}
 				if pd != nil && pd.t != st.Thread {
 					flushPd()
 				}
